@@ -117,7 +117,8 @@ Definition put_decision (d : decision) : val :=
 
 (* case = [lineage; principals; permission]
    answer = [regenerated permits; regenerated principals_allowed; spec granted; wf;
-             hand-written permits; hand-written principals_allowed] *)
+             hand-written permits; hand-written principals_allowed;
+             regenerated ACLAuthorizationPolicy.permits; regenerated ACLAuthorizationPolicy.principals_allowed_by_permission] *)
 Definition run_C11 (v : val) : val :=
   ret_or_bad (
     match v with
@@ -128,6 +129,8 @@ Definition run_C11 (v : val) : val :=
                   vbool (spec_granted L ps p);
                   vbool (wf_lineage L);
                   put_decision (permits L ps p);
-                  vtexts (principals_allowed L p)])
+                  vtexts (principals_allowed L p);
+                  put_decision (gen_policy_permits L ps p);
+                  vtexts (gen_policy_principals_allowed L p)])
     | _ => None
     end).
